@@ -71,11 +71,17 @@ def renumber(deck, cnt, rng):
     and material numbers are dealt afresh from the counters (the order of the
     numbers inside each class is kept, gaps are random).'''
     deck = copy.deepcopy(deck)
+    sparse = rng.random() < 0.3
 
     def deal(ids, attr, gaps):
+        if sparse and attr in ('cell', 'surf', 'uni', 'mat'):
+            # numbers far apart and up to five digits
+            gaps = gaps + [17, 230, 1500]
         out = {}
         cur = getattr(cnt, attr)
         for old in sorted(ids):
+            if attr == 'surf' and cur == WORLD_SURF:
+                cur += 1
             out[old] = cur
             cur += rng.choice(gaps)
         setattr(cnt, attr, cur + rng.choice(gaps))
@@ -226,6 +232,9 @@ def build(rng, family):
         # the order of the cards inside a block is free in MCNP
         rng.shuffle(main.surfs)
         main.tags.add('cards.unordered')
+    if rng.random() < 0.25:
+        rng.shuffle(main.cells)
+        main.tags.add('cells.unordered')
     main.trs.sort(key=lambda t: t.id)
     main.mats.sort(key=lambda m: m.id)
     main.hints = hints
